@@ -61,7 +61,183 @@ type c01tx struct {
 	ins      []c01in
 	outs     []c01out
 	label    string
+	mut      *c01mut // one field of one entry of the MAPPED transaction changed in place
 }
+
+// c01mut: field in {pv wd wdpos wdref ms mspos msref | ov srcpos srcref dv dstpos dstref}
+type c01mut struct {
+	field string
+	idx   int
+	asset int    // value mutations
+	v     uint64 // amount / position / referenced index
+}
+
+func (m *c01mut) String() string {
+	switch m.field {
+	case "pv", "wd", "ms", "ov", "dv":
+		return fmt.Sprintf("M %s %d %d %d", m.field, m.idx, m.asset, m.v)
+	case "wdref", "srcref":
+		return fmt.Sprintf("M %s %d", m.field, m.idx)
+	}
+	return fmt.Sprintf("M %s %d %d", m.field, m.idx, m.v)
+}
+
+func c01findMux(tx *bc.Tx) *bc.Mux {
+	for _, e := range tx.Entries {
+		if m, ok := e.(*bc.Mux); ok {
+			return m
+		}
+	}
+	return nil
+}
+
+func c01outSource(e bc.Entry) *bc.ValueSource {
+	switch o := e.(type) {
+	case *bc.OriginalOutput:
+		return o.Source
+	case *bc.VoteOutput:
+		return o.Source
+	case *bc.Retirement:
+		return o.Source
+	}
+	return nil
+}
+
+func c01inDest(e bc.Entry) *bc.ValueDestination {
+	switch in := e.(type) {
+	case *bc.Spend:
+		return in.WitnessDestination
+	case *bc.VetoInput:
+		return in.WitnessDestination
+	case *bc.Issuance:
+		return in.WitnessDestination
+	case *bc.Coinbase:
+		return in.WitnessDestination
+	}
+	return nil
+}
+
+var c01unknownHash = bc.Hash{V0: 0xdead, V1: 0xbeef, V2: 1, V3: 2}
+
+// c01applyMut changes ONE field of ONE entry of the mapped transaction in place (a fresh
+// AssetAmount / Hash is installed, so entries that shared the old pointer keep the old value).
+// Returns false when the mutation does not apply to this transaction.
+func c01applyMut(tx *bc.Tx, m *c01mut) bool {
+	fresh := func() *bc.AssetAmount {
+		a := c01asset(m.asset)
+		return &bc.AssetAmount{AssetId: &a, Amount: m.v}
+	}
+	mux := c01findMux(tx)
+	if mux == nil {
+		return false
+	}
+	switch m.field {
+	case "pv", "wd", "wdpos", "wdref", "ms", "mspos", "msref":
+		if m.idx < 0 || m.idx >= len(tx.InputIDs) || m.idx >= len(mux.Sources) {
+			return false
+		}
+		e := tx.Entries[tx.InputIDs[m.idx]]
+		switch m.field {
+		case "pv":
+			switch in := e.(type) {
+			case *bc.Spend:
+				tx.Entries[*in.SpentOutputId].(*bc.OriginalOutput).Source.Value = fresh()
+			case *bc.VetoInput:
+				tx.Entries[*in.SpentOutputId].(*bc.VoteOutput).Source.Value = fresh()
+			case *bc.Issuance:
+				in.Value = fresh()
+			default:
+				return false
+			}
+		case "wd", "wdpos", "wdref":
+			d := c01inDest(e)
+			if d == nil {
+				return false
+			}
+			switch m.field {
+			case "wd":
+				d.Value = fresh()
+			case "wdpos":
+				d.Position = m.v
+			default:
+				h := c01unknownHash
+				d.Ref = &h
+			}
+		case "ms":
+			mux.Sources[m.idx].Value = fresh()
+		case "mspos":
+			mux.Sources[m.idx].Position = m.v
+		case "msref":
+			h := c01unknownHash
+			if int(m.v) < len(tx.InputIDs) {
+				h = tx.InputIDs[m.v]
+			}
+			mux.Sources[m.idx].Ref = &h
+		}
+	default:
+		if m.idx < 0 || m.idx >= len(tx.ResultIds) || m.idx >= len(mux.WitnessDestinations) {
+			return false
+		}
+		src := c01outSource(tx.Entries[*tx.ResultIds[m.idx]])
+		if src == nil {
+			return false
+		}
+		switch m.field {
+		case "ov":
+			src.Value = fresh()
+		case "srcpos":
+			src.Position = m.v
+		case "srcref":
+			h := c01unknownHash
+			src.Ref = &h
+		case "dv":
+			mux.WitnessDestinations[m.idx].Value = fresh()
+		case "dstpos":
+			mux.WitnessDestinations[m.idx].Position = m.v
+		case "dstref":
+			h := c01unknownHash
+			if int(m.v) < len(tx.ResultIds) {
+				h = *tx.ResultIds[m.v]
+			}
+			mux.WitnessDestinations[m.idx].Ref = &h
+		default:
+			return false
+		}
+	}
+	return true
+}
+
+// what the transaction's inputs really hold / its outputs really carry, read from the ENTRIES
+// (consumed outputs' Source.Value, Issuance.Value; result entries' Source.Value), math/big
+func c01entrySums(tx *bc.Tx) (in, out map[string]*big.Int, hasCoinbase bool) {
+	in, out = map[string]*big.Int{}, map[string]*big.Int{}
+	add := func(m map[string]*big.Int, v *bc.AssetAmount) {
+		k := v.AssetId.String()
+		if m[k] == nil {
+			m[k] = new(big.Int)
+		}
+		m[k].Add(m[k], new(big.Int).SetUint64(v.Amount))
+	}
+	for _, id := range tx.InputIDs {
+		switch e := tx.Entries[id].(type) {
+		case *bc.Spend:
+			add(in, tx.Entries[*e.SpentOutputId].(*bc.OriginalOutput).Source.Value)
+		case *bc.VetoInput:
+			add(in, tx.Entries[*e.SpentOutputId].(*bc.VoteOutput).Source.Value)
+		case *bc.Issuance:
+			add(in, e.Value)
+		case *bc.Coinbase:
+			hasCoinbase = true
+		}
+	}
+	for _, id := range tx.ResultIds {
+		if src := c01outSource(tx.Entries[*id]); src != nil {
+			add(out, src.Value)
+		}
+	}
+	return
+}
+
 
 var c01prog = []byte{byte(vm.OP_NOP)}
 
@@ -167,6 +343,7 @@ var c01errNames = map[error]string{
 	validation.ErrMissingField:              "missingfield",
 	validation.ErrPosition:                  "position",
 	validation.ErrMismatchedAssetID:         "mismatchedassetid",
+	bc.ErrMissingEntry:                      "missingentry",
 	vm.ErrFalseVMResult:                     "vm",
 	vm.ErrRunLimitExceeded:                  "vm",
 	vm.ErrUnexpected:                        "vm",
@@ -219,6 +396,9 @@ func c01single(tx *bc.Tx, block *bc.Block) (gs *validation.GasState, err error, 
 
 func c01run(c *Ctx, t *c01tx) {
 	td, tx := c01prepare(t)
+	if t.mut != nil && !c01applyMut(tx, t.mut) {
+		t.mut = nil
+	}
 	block := &bc.Block{BlockHeader: &bc.BlockHeader{Version: t.bv, Height: t.bh}}
 	if t.first {
 		block.Transactions = []*bc.Tx{tx}
@@ -276,6 +456,9 @@ func c01emit(c *Ctx, t *c01tx, td *types.TxData, tx *bc.Tx, gs *validation.GasSt
 	for _, o := range t.outs {
 		fmt.Fprintf(&sb, " %c:%d:%d:%d", o.kind, o.asset, o.amount, o.voteLen)
 	}
+	if t.mut != nil {
+		sb.WriteString(" " + t.mut.String())
+	}
 	op := sb.String()
 	c.Op(op, res)
 	c.Count("verdict/" + hint)
@@ -287,6 +470,58 @@ func c01emit(c *Ctx, t *c01tx, td *types.TxData, tx *bc.Tx, gs *validation.GasSt
 
 	// ---- direct oracle (the property on the implementation's own answer)
 	if err != nil || panicked {
+		return
+	}
+	if t.mut != nil {
+		// entry-level mutation: the abstract description no longer describes the entries; the
+		// sums are read from the entries themselves
+		c.Count("mut/" + t.mut.field + "/accepted")
+		in, out, hasCb := c01entrySums(tx)
+		if hasCb {
+			return
+		}
+		bad := ""
+		btm := consensus.BTMAssetID.String()
+		keys := map[string]bool{}
+		for k := range in {
+			keys[k] = true
+		}
+		for k := range out {
+			keys[k] = true
+		}
+		zero := new(big.Int)
+		get := func(m map[string]*big.Int, k string) *big.Int {
+			if m[k] == nil {
+				return zero
+			}
+			return m[k]
+		}
+		for k := range keys {
+			if k != btm && get(in, k).Cmp(get(out, k)) != 0 {
+				bad = fmt.Sprintf("asset %s: consumed %s != produced %s", k[:8], get(in, k), get(out, k))
+			}
+		}
+		diff := new(big.Int).Sub(get(in, btm), get(out, btm))
+		if bad == "" && diff.Sign() < 0 {
+			bad = fmt.Sprintf("BTM consumed %s < produced %s", get(in, btm), get(out, btm))
+		}
+		if bad == "" && (!diff.IsUint64() || diff.Uint64() != gs.BTMValue) {
+			bad = fmt.Sprintf("BTMValue %d != consumed-produced %s", gs.BTMValue, diff)
+		}
+		if bad != "" && len(t.outs) > 0 {
+			entry := "mux"
+			switch t.mut.field {
+			case "pv", "wd", "wdpos", "wdref":
+				entry = map[byte]string{'s': "spend", 'i': "issuance", 'v': "veto", 'c': "coinbase"}[t.ins[t.mut.idx].kind]
+			case "ov", "srcpos", "srcref":
+				entry = map[byte]string{'o': "output", 'v': "voteoutput", 'r': "retirement"}[t.outs[t.mut.idx].kind]
+			}
+			sig := "accepted-after-entry-mutation:" + entry + "." + t.mut.field
+			c01failCount[sig]++
+			if c01failCount[sig] <= 3 {
+				c.Fail(sig, bad+" :: "+op)
+			}
+		}
 		return
 	}
 	in := map[int]*big.Int{}
@@ -597,6 +832,21 @@ func c01parse(line string) (*c01tx, error) {
 		t.outs = append(t.outs, c01out{kind: f[0][0], asset: int(u(f[1])), amount: u(f[2]), voteLen: int(u(f[3]))})
 		p++
 	}
+	if p < len(w) && w[p] == "M" && p+2 < len(w) {
+		m := &c01mut{field: w[p+1], idx: int(u(w[p+2]))}
+		switch m.field {
+		case "pv", "wd", "ms", "ov", "dv":
+			if p+4 < len(w) {
+				m.asset, m.v = int(u(w[p+3])), u(w[p+4])
+			}
+		case "wdref", "srcref":
+		default:
+			if p+3 < len(w) {
+				m.v = u(w[p+3])
+			}
+		}
+		t.mut = m
+	}
 	return t, nil
 }
 
@@ -873,6 +1123,84 @@ func c01wrap(c *Ctx) *c01tx {
 	return t
 }
 
+// entry-level mutation share: a (mostly valid) transaction is mapped with MapTx and then ONE
+// field of ONE entry is changed in place
+func c01entryMut(c *Ctx) *c01tx {
+	var t *c01tx
+	switch c.Rng.Intn(10) {
+	case 0:
+		t = c01coinbase(c)
+	case 1:
+		t = c01wrap(c)
+	default:
+		t = c01valid(c)
+	}
+	t.label = "entry-mutation"
+	m := &c01mut{}
+	inF := []string{"pv", "pv", "pv", "wd", "wd", "wdpos", "wdref", "ms", "ms", "mspos", "msref"}
+	outF := []string{"ov", "ov", "srcpos", "srcref", "dv", "dv", "dstpos", "dstref"}
+	useIn := c.Rng.Intn(2) == 0
+	if len(t.outs) == 0 {
+		useIn = true
+	}
+	if len(t.ins) == 0 {
+		return t
+	}
+	var baseAsset int
+	var baseAmount uint64
+	n := 0
+	if useIn {
+		m.field = inF[c.Rng.Intn(len(inF))]
+		m.idx = c.Rng.Intn(len(t.ins))
+		if c.Rng.Intn(2) == 0 {
+			// prefer the rarer input kinds (veto, issuance) half of the time
+			var rare []int
+			for k, in := range t.ins {
+				if in.kind == 'v' || in.kind == 'i' {
+					rare = append(rare, k)
+				}
+			}
+			if len(rare) > 0 {
+				m.idx = rare[c.Rng.Intn(len(rare))]
+			}
+		}
+		baseAsset, baseAmount, n = t.ins[m.idx].asset, t.ins[m.idx].amount, len(t.ins)
+	} else {
+		m.field = outF[c.Rng.Intn(len(outF))]
+		m.idx = c.Rng.Intn(len(t.outs))
+		baseAsset, baseAmount, n = t.outs[m.idx].asset, t.outs[m.idx].amount, len(t.outs)
+	}
+	switch m.field {
+	case "pv", "wd", "ms", "ov", "dv":
+		m.asset, m.v = baseAsset, baseAmount
+		switch c.Rng.Intn(8) {
+		case 0:
+			m.v++
+		case 1:
+			m.v--
+		case 2:
+			m.v = 1000
+		case 3:
+			m.v = baseAmount / 2
+		case 4:
+			m.v = c01amount(c)
+		case 5:
+			m.asset = c.Rng.Intn(7)
+		case 6:
+			m.asset = (baseAsset + 1) % 7
+			m.v = c01amount(c)
+		default:
+			// same value, fresh pointer: must change nothing
+		}
+	case "wdpos", "mspos", "srcpos", "dstpos":
+		m.v = []uint64{0, 1, uint64(m.idx), uint64(m.idx) + 1, uint64(n), uint64(n) + 7, 1 << 40}[c.Rng.Intn(7)]
+	case "msref", "dstref":
+		m.v = []uint64{uint64(c.Rng.Intn(n)), uint64(m.idx), uint64(n), uint64(n) + 3}[c.Rng.Intn(4)]
+	}
+	t.mut = m
+	return t
+}
+
 func c01coinbase(c *Ctx) *c01tx {
 	t := &c01tx{bv: 1, bh: 101, ver: 1, first: true, label: "coinbase"}
 	t.ins = []c01in{{kind: 'c', x: c.Rng.Intn(20), id: 0}}
@@ -1061,7 +1389,7 @@ func c01wild(c *Ctx) *c01tx {
 }
 
 func runC01(c *Ctx) {
-	c.Rule = "abstract transactions (1-12 inputs of kind spend/issuance/veto/coinbase, 0-12 outputs original/vote/retirement, <=6 assets incl. BTM, amounts from {0,1,small,2^31,2^62,2^63-1,2^63,2^64-1,random}) are turned into real types.TxData, mapped with MapTx and validated with validation.ValidateTx; 12% wrap-around multisets (k>=3 outputs and/or inputs of ONE asset, BTM or not, kinds original/vote/retirement and spend/issuance/veto mixed, every amount <= 2^63-1, whose TRUE sum crosses 2^63 or is 2^64*j + W while the other side totals exactly W, so that any unchecked uint64/int64 accumulation balances), 43% balanced-by-construction with a fee from a gas-relevant grid, 30% single-field mutations of those, 5% coinbase transactions, 10% unstructured; a case is distinct by its full abstract description; every 25th case is a BATCH of 2-40 transactions (1-3 base transactions, exact twins, and siblings with the SAME inputs but different outputs / amounts / size / time range: unbalanced, overflow, wrap-around, fee-changing variants) validated together by the real validation.ValidateTxs on one worker in two orders and with default parallelism: each batch verdict and GasState must equal ValidateTx on that transaction alone and the model's"
+	c.Rule = "abstract transactions (1-12 inputs of kind spend/issuance/veto/coinbase, 0-12 outputs original/vote/retirement, <=6 assets incl. BTM, amounts from {0,1,small,2^31,2^62,2^63-1,2^63,2^64-1,random}) are turned into real types.TxData, mapped with MapTx and validated with validation.ValidateTx; 12% wrap-around multisets (k>=3 outputs and/or inputs of ONE asset, BTM or not, kinds original/vote/retirement and spend/issuance/veto mixed, every amount <= 2^63-1, whose TRUE sum crosses 2^63 or is 2^64*j + W while the other side totals exactly W, so that any unchecked uint64/int64 accumulation balances), 15% ENTRY-LEVEL mutations (a mapped bc.Tx with ONE field of ONE entry changed in place: consumed output's Source.Value / Issuance.Value, WitnessDestination value/position/ref of spend, veto, issuance, coinbase, mux source and destination values/positions/refs, result outputs' Source value/position/ref; amounts +-1, 1000, half, boundary, other asset, identical copy), 28% balanced-by-construction with a fee from a gas-relevant grid, 30% single-field mutations of those, 5% coinbase transactions, 10% unstructured; a case is distinct by its full abstract description; every 25th case is a BATCH of 2-40 transactions (1-3 base transactions, exact twins, and siblings with the SAME inputs but different outputs / amounts / size / time range: unbalanced, overflow, wrap-around, fee-changing variants) validated together by the real validation.ValidateTxs on one worker in two orders and with default parallelism: each batch verdict and GasState must equal ValidateTx on that transaction alone and the model's"
 	replaying := c.Replay != ""
 	lines := c.CorpusLines()
 	if replaying {
@@ -1109,6 +1437,8 @@ func runC01(c *Ctx) {
 		switch r := c.Rng.Intn(100); {
 		case r < 12:
 			t = c01wrap(c)
+		case r < 27:
+			t = c01entryMut(c)
 		case r < 55:
 			t = c01valid(c)
 		case r < 85:
